@@ -125,7 +125,7 @@ POP_BASES = {
     'comp2': rp.Comp([rp.H(2), rp.Cov(rp.LN(1, False), 1)]),
     'nested': rp.Comp([rp.Comp([rp.G(1), rp.P(1)]), rp.H(1)]),
 }
-POP_OPS = ['n1', 'n2', 'n3', 'dims', 'dims0', 'pnames0', 'wrap', 'wrapfix',
+POP_OPS = ['n1', 'n2', 'n3', 'dims', 'dims0', 'pnames', 'pnames0', 'wrap', 'wrapfix',
            'fixlast', 'release', 'sel', 'seldup']
 
 
@@ -234,6 +234,18 @@ def w_pop_history(case):
             m.set_dim_names(None)
         elif op == 'pnames0':
             m.set_parameter_names(None)
+        elif op == 'pnames':
+            # exactly one name per (free) parameter
+            given = ['q%d' % i for i in range(m.n_parameters())]
+            m.set_parameter_names(given)
+            kept = list(m.get_parameter_names(exclude_dim_names=True))
+            # (a covariate model appends the covariate's name to the given one)
+            if len(kept) != len(given) or not all(
+                    k_.startswith(g_) for k_, g_ in zip(kept, given)):
+                viol.append({'sub': 'pnames_kept', 'message': 'the names given to '
+                             'set_parameter_names are not carried by the names '
+                             'reported afterwards, position by position (%s)' % base, 'expected': given,
+                             'observed': kept, 'behaviour': 'pnames_kept'})
         elif op == 'wrap':
             if not isinstance(m, chi.ReducedPopulationModel):
                 m = chi.ReducedPopulationModel(m)
@@ -566,6 +578,17 @@ def w_objects(case):
         n = c.get_n_parameters()
         lists_are_copies(viol, 'controller', c.get_parameter_names)
         agree('controller', n, c.get_parameter_names())
+        # the individual-level model behind the population model
+        lists_are_copies(viol, 'controller (individual-level names)',
+                         lambda: c.get_parameter_names(exclude_pop_model=True))
+        n_ind = c.get_n_parameters(exclude_pop_model=True)
+        agree('controller, population model excluded', n_ind,
+              c.get_parameter_names(exclude_pop_model=True))
+        if case.get('pop') is not None and n_ind != 3:
+            viol.append({'sub': 'ctrl_ind', 'message': 'number of individual-level '
+                         'parameters reported by the controller is not the '
+                         'dimension of its population model', 'expected': 3,
+                         'observed': n_ind, 'behaviour': 'obj_agree'})
         c.set_log_prior(pints.ComposedLogPrior(*[
             pints.GaussianLogPrior(1, 2) for _ in range(n)]))
         post = c.get_log_posterior()
@@ -633,6 +656,10 @@ def w_objects(case):
                 if not isinstance(m, chi.ReducedMechanisticModel):
                     m = chi.ReducedMechanisticModel(m)
                 m.fix_parameters({m.parameters()[op[1]]: 0.7})
+            elif op[0] == 'ren':
+                # (a parameter that is free at that moment gets another name)
+                m.set_parameter_names({m.parameters()[op[1]]: 'renamed %d (%d)' % (
+                    op[1], sum(1 for n_ in m.parameters() if 'renamed' in n_))})
             elif op[0] == 'rel':
                 if isinstance(m, chi.ReducedMechanisticModel):
                     m.fix_parameters({n_: None for n_ in
@@ -673,7 +700,7 @@ def make_search(base, depth):
 
 
 def build(tier, seed):
-    kinds = hier.KINDS6 if tier == 'quick' else hier.KINDS10
+    kinds = hier.KINDS10       # every class in both tiers
     max_ids = 2 if tier == 'quick' else 3
     hc = []
     structs = hier.structures(3, kinds)
@@ -682,6 +709,11 @@ def build(tier, seed):
         structs += [rp.Comp([rp.Comp([rp.G(1), rp.P(1)]), rp.H(1)]),
                     rp.Comp([rp.Comp([rp.H(1), rp.Comp([rp.LN(1, False)])]),
                              rp.Cov(rp.P(1))])]
+    # nested compositions whose inner pooled / heterogeneous dimension comes first
+    structs += [rp.Comp([rp.Comp([rp.P(1), rp.G(1)]), rp.LN(1)]),
+                rp.Comp([rp.Comp([rp.H(1), rp.G(1)]), rp.P(1)]),
+                rp.Comp([rp.G(1), rp.Comp([rp.P(1), rp.LN(1, False)])]),
+                rp.Comp([rp.Comp([rp.P(1), rp.LN(1), rp.H(1)])])]
     for spec in structs:
         for n_ids in range(1, max_ids + 1):
             hc.append(hier.make_case(spec, n_ids, seed))
@@ -753,7 +785,8 @@ def build(tier, seed):
                         [1.3, 0.4, 2.2][:n_obs + 1], n_obs, seed)})
     mops = [['adm', True], ['adm', False], ['out', ['global.tumour_volume']],
             ['out', ['central.drug_concentration', 'global.tumour_volume']],
-            ['sens', True], ['sens', False], ['red', 0], ['red', 2], ['rel']]
+            ['sens', True], ['sens', False], ['red', 0], ['red', 2], ['rel'],
+            ['ren', 1]]
     for r in range(0, 3 if tier == 'quick' else 4):
         for seq in itertools.product(mops, repeat=r):
             # a reduced wrapper only offers a subset of the calls
@@ -768,6 +801,14 @@ def build(tier, seed):
             objs.append({'kind': 'mech', 'ops': [list(o) for o in seq]})
             objs.append({'kind': 'mech', 'ops': [list(o) for o in seq]
                          + [['red', 1]]})
+    # renamed parameters, fixed parameters and sensitivities in every order
+    for i_ren in (0, 1, 3):
+        for i_fix in (0, 2):
+            for seq in itertools.permutations(
+                    [['ren', i_ren], ['red', i_fix], ['sens', True]]):
+                objs.append({'kind': 'mech', 'ops': [list(o) for o in seq]})
+                objs.append({'kind': 'mech', 'ops': [list(o) for o in seq]
+                             + [['rel']]})
     # sub-models constructed for their own numbers of individuals
     ctor = []
     # (a covariate model around a heterogeneous model has no subpopulation
